@@ -188,6 +188,7 @@ impl rustc_driver::Callbacks for Cb {
         let mut index_bodies = vec![];
         let mut calls = vec![];
         let mut casts = vec![];
+        let mut aggs = vec![];
         let mut mir_out = String::new();
         let mut hir_out = String::new();
         let owners: Vec<LocalDefId> = tcx.hir_body_owners().collect();
@@ -226,8 +227,9 @@ impl rustc_driver::Callbacks for Cb {
                 && tcx.is_mir_available(did);
             if has_mir {
                 let body = tcx.optimized_mir(did);
-                let (mj, mut cs, mut ks) = mirdump::dump_body(&cx, def, body);
+                let (mj, mut cs, mut ks, mut ags) = mirdump::dump_body(&cx, def, body);
                 casts.append(&mut ks);
+                aggs.append(&mut ags);
                 let line = J::Obj(vec![("def", J::s(path.clone())), ("mir", mj)]);
                 line.write(&mut mir_out);
                 mir_out.push('\n');
@@ -327,6 +329,7 @@ impl rustc_driver::Callbacks for Cb {
             ("bodies", J::Arr(index_bodies)),
             ("calls", J::Arr(calls)),
             ("casts", J::Arr(casts)),
+            ("aggs", J::Arr(aggs)),
             ("adts", J::Arr(adts)),
             ("statics", J::Arr(statics)),
             ("impls", J::Arr(impls)),
